@@ -31,4 +31,15 @@ structure Other where
   key : List Nat         -- bytes of "<kind>@<file>:<function name>"
 deriving Repr, Inhabited
 
+/-- a `go` statement in a reachable function, with the variables its closure shares with the spawning function and how
+the goroutine uses each ("<var>:<use>", use ∈ read | write | index-write[<index>] | atomic.<Fn> | send | recv | call <Method> | addr) -/
+structure GoSite where
+  file : String
+  line : Nat
+  func : String
+  key : List Nat               -- bytes of "<file>:<function name>"
+  captures : List String
+  ckeys : List (List Nat)      -- the same as byte lists (String functions do not reduce in the kernel)
+deriving Repr, Inhabited
+
 end ZChain.Det
